@@ -48,6 +48,7 @@ from harness import planner_a
 from harness.planner_a import Tables
 
 REQ = ["MV.Model.Orch", "MV.Model.OrchCheck", "MV.Model.PlannerA", "MV.Model.PlannerB"]
+REQ_D = REQ + ["MV.Model.PlanDefects"]
 STAGES = ["chkB_request", "chkB_graph", "chkB_queue", "chkB_closure", "chkB_ptab", "chkB_plan"]
 LAST_INFO: Dict[str, Any] = {}
 OUTCOME = planner_a.OUTCOME
@@ -168,18 +169,30 @@ def gen_multi(rng: random.Random, n_cfw: Optional[int] = None, max_groups: int =
     return spec
 
 
+def gen_cross_multi(rng: random.Random, n_cfw: int = 2) -> Dict[str, Any]:
+    """planner_a.gen_cross (groups whose steps may require each other: rejected with the cycle error, or resolved by the
+    level split) with a framework per group: the decision must not depend on the transform steps."""
+    cf = rng.sample(CFWS, n_cfw)
+    spec = planner_a.gen_cross(rng)
+    for g in spec["groups"]:
+        g["cfw"] = rng.choice(cf)
+    return spec
+
+
 def gen_any(rng: random.Random) -> Dict[str, Any]:
     from harness import daggen
     r = rng.random()
     n_cfw = 2 if rng.random() < 0.6 else 3
     if r < 0.2:
         return gen_chain(rng, n_cfw)
-    if r < 0.5:
+    if r < 0.45:
         return gen_fanin(rng, n_cfw)
-    if r < 0.65:
+    if r < 0.6:
         return gen_shared(rng, n_cfw)
-    if r < 0.85:
+    if r < 0.77:
         return gen_multi(rng, n_cfw)
+    if r < 0.87:
+        return gen_cross_multi(rng, n_cfw)
     return daggen.gen_single_root(rng)
 
 
@@ -218,6 +231,10 @@ def witness_specs() -> List[Dict[str, Any]]:
     w.append({"groups": [_root(PA, ["a"]), {"name": "P1", "kind": "derived", "cfw": PA, "features": {"p1": _feat(["a"])}},
                          {"name": "C1", "kind": "derived", "cfw": PN, "features": {"c1": _feat(["p1"])}},
                          {"name": "C2", "kind": "derived", "cfw": PD, "features": {"c2": _feat(["p1"])}}], "request": ["p1", "c1", "c2"]})
+    # steps of two groups on two frameworks that require each other: rejected at prepare (cycle), transform steps or not
+    cyc = planner_a.spec_cross_cycle()
+    cyc["groups"][1]["cfw"] = PN
+    w.append(cyc)
     return w
 
 
@@ -281,6 +298,10 @@ def observe(spec: Dict[str, Any], keep_session: bool = False) -> Dict[str, Any]:
         nd = 0
         plan, anys, ptab = [], [], []
         for st in steps:
+            unknown = [u for u in st.required_uuids if u not in ren]
+            if unknown:
+                return {"error": f"a {type(st).__name__} requires {len(unknown)} uuid(s) that belong to no feature and no step of the plan "
+                                 f"(real prepare: {OUTCOME[outcome]})"}
             if isinstance(st, FeatureGroupStep):
                 feats = list(st.features.features)
                 any_u = st.features.any_uuid
@@ -343,6 +364,18 @@ def cq_obstep(s: Dict[str, Any]) -> str:
     return (f"(({kind}, {_nl(s['uuids'])}, {_nl(s['req'])}, {cq_bool(s['requested'])}), "
             f"({cq_nat(s['cfw'])}, {cq_nat(s['from'])}, {cq_nat(s['grp'])}, {cq_nat(s['fgrp'])}), "
             f"({cq_nat(s['any'])}, {_nl(s['cir'])}, {_nl(s['tfs'])}))")
+
+
+def cq_bplan_obs(plan: List[Dict[str, Any]]) -> str:
+    """an observed plan (observe()['plan']) as a PlannerB.bplan term"""
+    out = []
+    for i, s in enumerate(plan):
+        kind = {"FG": "KFG", "TFS": "KTFS"}[s["kind"]]
+        out.append(f"{{| bs := {{| sid := {cq_nat(i)}; skind := {kind}; uuids := {_nl(s['uuids'])}; req := {_nl(s['req'])}; "
+                   f"requested := {cq_bool(s['requested'])} |}}; b_cfw := {cq_nat(s['cfw'])}; b_from := {cq_nat(s['from'])}; "
+                   f"b_grp := {cq_nat(s['grp'])}; b_fgrp := {cq_nat(s['fgrp'])}; b_any := {cq_nat(s['any'])}; b_cir := {_nl(s['cir'])}; "
+                   f"b_tfs := {_nl(s['tfs'])}; b_link := false |}}")
+    return cq_list(out)
 
 
 def cq_case(t: Tables, o: Dict[str, Any]) -> str:
@@ -415,6 +448,18 @@ def check_plans(specs: List[Dict[str, Any]], rep_prefix: str, run_accepted: int 
         bad, ci = vlib.run_cases(rep_prefix, "planB_all", REQ, "chkB_planner", terms, case_type="bcase", shard=40)
         info["coq"] = ci
         bad_skel = failing("planB_skel", "chkB_skeleton")
+
+        def failing_d(name: str, checker: str) -> List[int]:
+            return vlib.run_cases(rep_prefix, name, REQ_D, checker, terms, case_type="bcase", shard=40)[0]
+        bad_struct = failing_d("planB_struct", "chkB_struct")
+        bad_choice = failing_d("planB_choice", "chkB_choice_free")
+        plan_only_diff = failing_d("planB_planonly", "chkB_plan_only")
+        codes = _eval_nat_lists(rep_prefix, "planB_codes", "", terms, "bcase", "modelB_code", shard=60)
+        choice = _eval_nat_lists(rep_prefix, "planB_choicebit", "", terms, "bcase", "modelB_choice", shard=60)
+        info["model_plans_by_domain"] = {KF_KEYS[b]: sum(1 for c in codes if c & b) for b in KF_KEYS}
+        info["model_plans_outside_domains"] = sum(1 for c in codes if c == 0)
+        info["model_plans_choice_free"] = sum(1 for c in choice if c == 0)
+        info["plan_only_classification_differs"] = len(plan_only_diff)
         stage_of: Dict[int, str] = {}
         if bad:
             sub = [terms[j] for j in bad]
@@ -434,6 +479,16 @@ def check_plans(specs: List[Dict[str, Any]], rep_prefix: str, run_accepted: int 
                 out.append({"spec": frag[k], "stage": "chkB_skeleton", "hash_seed": label,
                             "what": "the feature-group steps of the model plan are not the Stage-A plan of the framework-erased graph "
                                     "(contradicts theorem PlannerB_fg_skeleton)"})
+        for j in bad_struct:
+            k, label = where[j]
+            out.append({"spec": frag[k], "stage": "chkB_struct", "hash_seed": label,
+                        "what": "the model plan fails wf_struct / validate_A / req_covers (contradicts theorems PlannerB_plan_struct, "
+                                "PlannerB_plan_req_covers)"})
+        for j in bad_choice:
+            k, label = where[j]
+            out.append({"spec": frag[k], "stage": "chkB_choice_free", "hash_seed": label,
+                        "what": "kf_tfs_choice is false but the plan lies in kf_tfs_missing / kf_tfs_partial (contradicts theorem "
+                                "PlannerB_choice_free_direct)"})
         tfs_specs, nondet = 0, 0
         for k in range(len(frag)):
             sigs = {plan_signature(obs[k]) for _, obs in runs if "error" not in obs[k]}
@@ -455,6 +510,8 @@ def check_plans(specs: List[Dict[str, Any]], rep_prefix: str, run_accepted: int 
             info["steps_hist"][n] = info["steps_hist"].get(n, 0) + 1
         n_run = 0
         info["run"] = {}
+        route_terms: List[str] = []
+        route_where: List[int] = []
         for k, (sess, uni) in sorted(sessions.items()):
             if sess is None or n_run >= run_accepted:
                 uni.dispose()
@@ -463,12 +520,23 @@ def check_plans(specs: List[Dict[str, Any]], rep_prefix: str, run_accepted: int 
             n_run += 1
             r = run_observed(sess, timeout=run_timeout)
             info["run"][r["status"]] = info["run"].get(r["status"], 0) + 1
+            if r["status"] == "ok":
+                route_terms.append(f"({cq_bplan_obs(runs[0][1][k]['plan'])}, "
+                                   f"{cq_list(f'({cq_nat(a)}, {cq_nat(w - 1)})' for a, (w, _r) in sorted(r['foot'].items()) if a >= 0)})")
+                route_where.append(k)
             if r["status"] == "hang":
                 out.append({"spec": frag[k], "stage": "run", "hash_seed": "in-process#0",
                             "what": f"SYNC run of an ACCEPTED B1 plan did not return or raise within {run_timeout}s "
                                     f"({r['scans']} loop iterations); theorem PlannerB_plan_wf + C04_terminates_sync say it ends"})
             uni.dispose()
         info["runs"] = n_run
+        if route_terms:
+            bad_route = vlib.run_cases(rep_prefix, "planB_route", REQ_D, "chk_route", route_terms, case_type="bplan * list (nat * nat)", shard=60)[0]
+            info["routes_compared"] = len(route_terms)
+            for j in bad_route:
+                out.append({"spec": frag[route_where[j]], "stage": "chk_route", "hash_seed": "in-process#0",
+                            "what": "the objects the steps of the SYNC run wrote on are not those of PlanDefects.route_sync "
+                                    "(model of CfwManager.get_cfw_uuid / prepare_execute_step)"})
     info["disagreements"] = len(out)
     LAST_INFO.clear()
     LAST_INFO.update(info)
@@ -478,7 +546,6 @@ def check_plans(specs: List[Dict[str, Any]], rep_prefix: str, run_accepted: int 
 # ------------------------------------------------------------------------------------------------------------
 # the known planner-defect domains on EXPORTED plans, evaluated in Coq (coq/Model/PlanDefects.v)
 # ------------------------------------------------------------------------------------------------------------
-REQ_D = REQ + ["MV.Model.PlanDefects"]
 KF_KEYS = {1: "C01-tfs-missing", 2: "C01-tfs-partial-requirement", 4: "C01-framework-roundtrip-wrong-object"}
 
 
